@@ -77,7 +77,7 @@ func NewDirector() *Director {
 		gen:      map[string]int{},
 		cross:    map[string]int{},
 		traceMax: 4096,
-		Watchdog: 60 * time.Second,
+		Watchdog: 25 * time.Second,
 	}
 	d.cond = sync.NewCond(&d.mu)
 	current.Store(dirBox{d})
